@@ -56,6 +56,7 @@ VAR_GLOBAL
 END_VAR
 VAR_GLOBAL RETAIN
   g_saved : DINT := 0;
+  g_rdiv : DINT := 4;
 END_VAR
 TASK Fast (INTERVAL := T#10ms, PRIORITY := 0);
 TASK Slow (INTERVAL := T#20ms, PRIORITY := 1);
@@ -97,8 +98,9 @@ out_b := BYTE#16#A5;
 END_PROGRAM
 
 PROGRAM Bg
-VAR_EXTERNAL g_div3 : DINT; g_keep : DINT; g_trip : DINT; END_VAR
+VAR_EXTERNAL g_div3 : DINT; g_keep : DINT; g_trip : DINT; g_rdiv : DINT; END_VAR
 VAR
+  scale0 : DINT := 100 / g_rdiv;
   out_l AT %QL8 : LINT;
   t : DINT;
   n_bg : DINT;
@@ -500,6 +502,27 @@ impl C08Check {
                     now = 0;
                     stats.inc("fault.restart");
                 }
+                "restart_failing" if !restarted => {
+                    // a warm restart that fails part-way (an initialiser divides by a retained zero) is no restart:
+                    // the resource stays faulted and keeps refusing cycles
+                    rt.storage_mut().set_global("g_rdiv", Value::DInt(0));
+                    let r = guard("restart", || rt.restart(RestartMode::Warm))?;
+                    if r.is_ok() {
+                        return Err(Violation::new("harness/restart-did-not-fail", "warm restart with a retained zero divisor succeeded".to_string()));
+                    }
+                    stats.inc("fault.restart_failed_part_way");
+                    if !rt.faulted() {
+                        return Err(Violation::new("latch/cleared-by-failed-restart", format!("op {opi}: restart returned {:?} yet the resource is no longer faulted", r.err().map(|e| variant_name(&e)))));
+                    }
+                    let exec0 = verif_hooks::budget::executed();
+                    now += 10_000_000;
+                    rt.set_current_time(Duration::from_nanos(now));
+                    let r2 = guard("execute_cycle", || rt.execute_cycle())?;
+                    if !matches!(r2, Err(RuntimeError::ResourceFaulted)) || verif_hooks::budget::executed() != exec0 {
+                        return Err(Violation::new("halt/cycle-not-refused/after-failed-restart", format!("op {opi}: cycle returned {r2:?}, {} budget points executed", verif_hooks::budget::executed() - exec0)));
+                    }
+                    return Ok(Outcome { fired: true, budget_points_in_fault_cycle: points });
+                }
                 "refault" if restarted => {
                     // the latch and the safe state work again for a fault after the restart (or after clear_fault)
                     let e = guard("simulation_fault", || rt.simulation_fault("after restart"))?;
@@ -824,6 +847,10 @@ impl Check for C08Check {
             ops.push(json!({"k": "restart", "mode": if o.bool() { "warm" } else { "cold" }}));
             ops.push(json!({"k": "cycle", "dt": 10_000_000}));
             ops.push(json!({"k": "cycle", "dt": 10_000_000}));
+        }
+        let mut fr = rng.fork("failing-restart");
+        if fr.chance(1, 8) && !ops.iter().any(|op| op["k"] == "restart") {
+            ops.push(json!({"k": "restart_failing"}));
         }
         let mut x = rng.fork("second");
         if x.chance(1, 2) && policy != "restart" && kind != "watchdog" {
